@@ -136,6 +136,7 @@ pub fn run_child_shard(cases: Vec<Box<dyn Case>>, shard: usize, shards: usize, f
         }
         let r = match std::panic::catch_unwind(std::panic::AssertUnwindSafe(|| c.run(filter.is_some()))) {
             Ok(r) => r,
+            Err(e) if e.downcast_ref::<crate::common::HonestPrecondition>().is_some() => CaseResult::new("honest-precondition-failed(skipped)"),
             Err(_) => {
                 let mut r = CaseResult::new("HARNESS-PANIC");
                 r.machinery_error(format!("harness panicked outside the subject on case {}", c.key()));
@@ -349,6 +350,10 @@ impl Report {
                                 }
                             }
                             r
+                        },
+                        Err(e) if e.downcast_ref::<crate::common::HonestPrecondition>().is_some() => {
+                            // an honest operation this case builds on failed: another property's finding
+                            CaseResult::new("honest-precondition-failed(skipped)")
                         },
                         Err(e) => {
                             let msg = e
